@@ -125,6 +125,7 @@ PROPS = {
             {"name": "c11.faults", "pkg": UTILS, "test": "TestVerifC11Faults", "shards_t": 4},
             {"name": "c11.concurrent-stress", "pkg": UTILS, "test": "TestVerifC11ConcurrentStress", "shards_t": 4, "shards_q": 2},
             {"name": "c11.sockets", "pkg": TCPCL, "test": "TestVerifC11Sockets", "shards_t": 16, "shards_q": 4, "crash_is_violation": True},
+            {"name": "c11.stage-order", "pkg": STAGES, "test": "TestVerifC11StageOrder", "shards_t": 8, "shards_q": 2},
         ],
     },
     "C16": {
